@@ -55,6 +55,10 @@ def judge(prog: Program, ref: Any, run: dict[str, Any], info: dict[str, Any]) ->
     ents = [e for e in h.ledger if e["key"] == focus]
     n = len(ents)
     lost = run["faults"].get("lost_ack", 0)
+    # injected commit failures (disk I/O error at a seeded commit, engine D share): the failed handling is delivered again
+    # and repeats the same attempt - one extra execution each, seeing the progress of the last *committed* attempt
+    iof = sum(v for k, v in run["faults"].items() if k.startswith("io_commit:"))
+    lost += iof
     problems: list[tuple[str, str, str]] = []
     fs = run["fs"]
     S = fs["stages"].get("S", {})
@@ -72,7 +76,7 @@ def judge(prog: Program, ref: Any, run: dict[str, Any], info: dict[str, Any]) ->
     progress = t.get("progress", True)
     if progress:
         cs = [int(e["result"].split(":")[2]) for e in ents]
-        if any(b <= a for a, b in zip(cs, cs[1:])):
+        if any(b < a or (b == a and not iof) for a, b in zip(cs, cs[1:])):
             problems.append(("progress-lost", f"progress counters seen by successive attempts are not strictly increasing: {cs}", "progress"))
     below = k != "inf" and int(k) + 1 < DOCUMENTED_MAX
     if n > DOCUMENTED_MAX + 1 + lost:
@@ -116,7 +120,33 @@ def judge(prog: Program, ref: Any, run: dict[str, Any], info: dict[str, Any]) ->
     return one_violation("C14", problems, h)
 
 
-CHECK = DCheck("C14", {}, judge, make_program=make_program, need_ref=False,
+def setup(ex: Exec, ch: Choices, info: dict[str, Any]) -> None:
+    """A fifth of the engine-D runs: one or two commits fail with a disk I/O error (not a lock error, so nothing retries
+    it in place): if it is the retry handler's own commit, the exception must reach the processor so that the delivery
+    is repeated - a handler that swallows it leaves the task RUNNING with nothing queued."""
+    if ch.flip("c14.iofault", 0.2):
+        # aimed at the retry path's own commit: the first commit after the j-th transient failure of the task (context
+        # update + retry copy).  What the engine does with a disk error anywhere else is not C14's subject.
+        which = {1 + ch.pick("c14.io.j", 6) for _ in range(1 + ch.pick("c14.io.n", 2))}
+        seen = [0, -1]      # transient failures seen so far, ledger length at the last one
+
+        def pred(w: Any, n: int) -> str | None:
+            led = w.ledger
+            if not led or len(led) == seen[1]:
+                return None
+            e = led[-1]
+            if ":fail:" in str(e.get("result")) and e.get("commit_count") == w.commit_count \
+                    and w.ctx.get(w.current_worker(), ("", ""))[0] == "RunTask":
+                seen[0] += 1
+                seen[1] = len(led)
+                if seen[0] in which:
+                    return "disk I/O error"
+            return None
+
+        ex.world.io_fault_pred = pred
+
+
+CHECK = DCheck("C14", {}, judge, make_program=make_program, setup=setup, need_ref=False,
                nontrivial=lambda run, info: any(":fail:" in e["result"] or ":running:" in e["result"] for e in run["ledger"]))
 
 
